@@ -182,3 +182,288 @@ def c17(tier, seed, **kw):
         nontrivial=lambda b: True,
         project=lambda r: project_generic(r, ("d regs", "d misc", "d area")),
         impl_checks=stack_frame_check)
+
+
+# ----------------------------------------------------------------------------- C15 / C16: ELF loading
+
+sys.path.insert(0, os.path.join(axv.ROOT, "gen_cases"))
+import elf_gen  # noqa: E402
+
+PAGE = 0x1000
+
+
+def fnv64(data):
+    h = 0xcbf29ce484222325
+    for b in data:
+        h = ((h ^ b) * 0x100000001b3) & ((1 << 64) - 1)
+    return h
+
+
+def build_static_elf(rng):
+    """a well-formed static ELF64 little-endian executable: page-aligned PT_LOAD segments on distinct
+    pages, filesz <= memsz, optional skippable headers, a symbol table with valid names.
+    returns (bytes, expectation)"""
+    nload = rng.randrange(1, 6)
+    base = rng.choice([0x400000, 0x10000, 0x200000, 0x7f0000000000, 0x1000])
+    pages = sorted(rng.sample(range(0, 64, 6), nload))      # 6 pages apart, segments up to 5 pages
+    order = list(range(nload))
+    if rng.random() < 0.5:
+        rng.shuffle(order)
+    segs = []
+    for k in range(nload):
+        kind = rng.choice(["eq", "bss", "pagemult", "purebss", "tiny"])
+        if kind == "eq":
+            fsz = rng.randrange(1, 0x2800); msz = fsz
+        elif kind == "bss":
+            fsz = rng.randrange(1, 0x1800); msz = fsz + rng.randrange(1, 0x2000)
+        elif kind == "pagemult":
+            fsz = rng.choice([0x1000, 0x2000, 0x3000]); msz = fsz
+        elif kind == "purebss":
+            fsz = 0; msz = rng.choice([1, 0x1000, 0x1001, 0x2345])
+        else:
+            fsz = rng.choice([1, 8, 0x2e]); msz = fsz
+        segs.append(dict(vaddr=base + pages[k] * PAGE, fsz=fsz, msz=msz, flags=rng.randrange(8),
+                         content=bytes(rng.randrange(256) for _ in range(fsz))))
+    nextra = rng.randrange(0, 3)
+    phnum = nload + nextra
+    ehsize, phentsize = 64, 56
+    off = ehsize + phnum * phentsize
+    off = (off + 15) & ~15
+    for s in segs:
+        s["off"] = off
+        off += s["fsz"]
+        al = rng.choice([1, 1, 8, 16])
+        off = (off + al - 1) // al * al
+    # symbols
+    names = [b"main", b"_start", b"foo", b"bar_baz", b"x", b"memcpy", b"a.very.long.symbol.name.with.dots", b"\xc3\xa9t\xc3\xa9"]
+    syms, defined = [], {}
+    entry_seg = rng.choice(segs)
+    entry = entry_seg["vaddr"] + (rng.randrange(entry_seg["fsz"]) if entry_seg["fsz"] else 0)
+    strtab = bytearray(b"\0")
+    have_syms = rng.random() < 0.75
+    if have_syms:
+        for _ in range(rng.randrange(0, 10)):
+            nm = rng.choice(names)
+            noff = len(strtab)
+            strtab += nm + b"\0"
+            sg = rng.choice(segs)
+            val = rng.choice([sg["vaddr"] + rng.randrange(max(1, sg["msz"])), entry, sg["vaddr"]])
+            shndx = rng.choice([1, 1, 1, 2, 0])      # 0 = undefined: not a definition
+            syms.append((noff, 0x12, 0, shndx, val, 8))
+            if shndx != 0:
+                defined.setdefault(val, []).append(nm)
+    import struct
+    symtab = struct.pack("<IBBHQQ", 0, 0, 0, 0, 0, 0) + b"".join(struct.pack("<IBBHQQ", *s) for s in syms)
+    shstr = b"\0.symtab\0.strtab\0.shstrtab\0"
+    symoff = (off + 7) & ~7
+    stroff = symoff + len(symtab)
+    shstroff = stroff + len(strtab)
+    shoff = (shstroff + len(shstr) + 7) & ~7
+    sh = [struct.pack("<IIQQQQIIQQ", 0, 0, 0, 0, 0, 0, 0, 0, 0, 0),
+          struct.pack("<IIQQQQIIQQ", 1, 2, 0, 0, symoff, len(symtab), 2, 1, 8, 24),
+          struct.pack("<IIQQQQIIQQ", 9, 3, 0, 0, stroff, len(strtab), 0, 0, 1, 0),
+          struct.pack("<IIQQQQIIQQ", 17, 3, 0, 0, shstroff, len(shstr), 0, 0, 1, 0)]
+    if not have_syms:
+        sh, shoff_used, shnum, shstrndx = [], 0, 0, 0
+    else:
+        shoff_used, shnum, shstrndx = shoff, 4, 3
+    eh = b"\x7fELF" + bytes([2, 1, 1, 0]) + bytes(8) + struct.pack("<HHIQQQIHHHHHH", 2, 62, 1, entry, ehsize, shoff_used, 0,
+                                                                 ehsize, phentsize, phnum, 64, shnum, shstrndx)
+    phs = []
+    for k in order:
+        s = segs[k]
+        phs.append(struct.pack("<IIQQQQQQ", 1, s["flags"], s["off"], s["vaddr"], s["vaddr"], s["fsz"], s["msz"], PAGE))
+    for _ in range(nextra):
+        t = rng.choice(["stack", "note", "null", "relro"])
+        s0 = segs[0]
+        if t == "stack":
+            ph = struct.pack("<IIQQQQQQ", 0x6474e551, 6, 0, 0, 0, 0, 0, 0x10)
+        elif t == "note":
+            ph = struct.pack("<IIQQQQQQ", 4, 4, s0["off"], s0["vaddr"], s0["vaddr"], min(4, s0["fsz"]), 4, 4)
+        elif t == "null":
+            ph = struct.pack("<IIQQQQQQ", 0, 0, 0, 0, 0, 0, 0, 0)
+        else:
+            ph = struct.pack("<IIQQQQQQ", 0x6474e552, 4, s0["off"], s0["vaddr"], s0["vaddr"], min(8, s0["fsz"]), 8, 1)
+        phs.insert(rng.randrange(len(phs) + 1), ph)
+    img = bytearray(eh + b"".join(phs))
+    for s in segs:
+        img += bytes(s["off"] - len(img))
+        img += s["content"]
+    if have_syms:
+        img += bytes(symoff - len(img)) + symtab + bytes(strtab) + shstr
+        img += bytes(shoff - len(img)) + b"".join(sh)
+    return bytes(img), dict(entry=entry, segs=segs, defined=defined)
+
+
+ELF_EXPECT = {}
+
+
+def gen_static_elf_cases(seed, n):
+    rng = random.Random(seed * 86028121 + 15)
+    lines, hist = [], {}
+    ELF_EXPECT.clear()
+    for k in range(n):
+        b, exp = build_static_elf(rng)
+        cid = "welf%d_%d" % (seed, k)
+        ELF_EXPECT[cid] = exp
+        hist["segments-%d" % len(exp["segs"])] = hist.get("segments-%d" % len(exp["segs"]), 0) + 1
+        hist["symtab" if exp["defined"] else "nosym"] = hist.get("symtab" if exp["defined"] else "nosym", 0) + 1
+        ops = ["allregs " + " ".join("0" for _ in range(16)), "allxmm " + " ".join("0" for _ in range(16)), "dump"]
+        for a in list(exp["defined"])[:8] + [exp["entry"], exp["entry"] + 1]:
+            ops.append("symbol %x" % a)
+        for s in exp["segs"]:
+            if s["flags"] & 4:
+                ops.append("memr %x %x" % (s["vaddr"], min(16, max(1, s["msz"]))))
+        lines += ["case " + cid, "elf " + b.hex()] + ops + ["end"]
+    return lines, hist
+
+
+def static_elf_check(block, res):
+    cid = block[0][5:]
+    exp = ELF_EXPECT.get(cid)
+    if exp is None:
+        return None
+    rl = [l for l in res if l.startswith("r ")]
+    if not rl or not rl[0].startswith("r ok"):
+        return "loading a well-formed static ELF failed: %s" % (rl[0] if rl else "<nothing>")
+    regs = next(l for l in res if l.startswith("d regs")).split()
+    if int(regs[2], 16) != exp["entry"]:
+        return "RIP %s is not the entry point %x" % (regs[2], exp["entry"])
+    areas = _areas_bytes(res, upto=1)
+    for s in exp["segs"]:
+        a = next((x for x in areas if x[0] == s["vaddr"]), None)
+        if a is None:
+            return "segment at %x is not mapped" % s["vaddr"]
+        rounded = (s["msz"] + 0xfff) & ~0xfff
+        want = s["content"] + bytes(rounded - s["fsz"])
+        if a[1] != rounded:
+            return "segment at %x has length %x, expected %x" % (s["vaddr"], a[1], rounded)
+        prot = (1 if s["flags"] & 4 else 0) | (2 if s["flags"] & 2 else 0) | (4 if s["flags"] & 1 else 0)
+        if a[2] != prot:
+            return "segment at %x has permissions %x, expected %x (flags %x)" % (s["vaddr"], a[2], prot, s["flags"])
+        if a[3] is not None:
+            if a[3] != want:
+                return "memory image of the segment at %x differs from the file" % s["vaddr"]
+        else:
+            t = a[4].split(":")
+            if int(t[1], 16) != fnv64(want) or bytes.fromhex(t[2]) != want[:32] or bytes.fromhex(t[3]) != want[-32:]:
+                return "memory image of the segment at %x differs from the file (checksum)" % s["vaddr"]
+    # symbols
+    sym_lines = [l for l in res if l.startswith("r ok") and l is not rl[0]]
+    ops = [b for b in block if b.startswith("symbol ")]
+    k = 0
+    results = [l for l in res if l.startswith("r ")][3:3 + len(ops)]   # after elf, allregs, allxmm
+    for op, r in zip(ops, results):
+        a = int(op.split()[1], 16)
+        names = exp["defined"].get(a)
+        if names:
+            got = r.split()[2] if len(r.split()) > 2 else ""
+            gotb = b"" if got in ("none", "-") else bytes.fromhex(got) if got else b""
+            if got == "none" or gotb not in names:
+                return "address %x carries symbol(s) %s but resolves to %r" % (a, names[:3], gotb if got != "none" else None)
+    return None
+
+
+@prop("C15")
+def c15(tier, seed, **kw):
+    n = 300 if tier == "quick" else 8000
+    lines, hist = gen_static_elf_cases(seed, n)
+    # the structured generator of the tie (testdata binaries, ELF32/big-endian, odd but accepted shapes)
+    l2 = elf_gen.gen_elf_cases(seed + 15, 150 if tier == "quick" else 4000, 0.15)
+    res = hand_check(
+        "C15", lines + l2, hist,
+        rule="well-formed static ELF64-LE executables built by an independent writer: 1-5 PT_LOAD segments on distinct pages "
+             "(file size = / < memory size, pure bss, exact page multiples, 1 byte .. 5 pages), any order in the table, all 8 flag "
+             "combinations, optional GNU_STACK / NOTE / NULL / GNU_RELRO headers, symbol tables with 0-9 defined and undefined "
+             "symbols (or none); the loaded machine is compared with the file (image, zero tail, permissions, RIP, symbols); plus "
+             "the tie generator (testdata binaries, ELF32 / big-endian / unusual but accepted layouts); non-trivial = load succeeded",
+        nontrivial=lambda b: True,
+        project=lambda r: project_generic(r, ("d regs", "d area", "d misc")),
+        impl_checks=static_elf_check)
+    return res
+
+
+def elf_evil_cases(seed, impl_only=False):
+    """single-field mutations of a real binary with adversarial sizes, offsets and addresses.
+    impl_only: the accepted boundary sizes (a 256 MiB segment) that the list-based model cannot materialise"""
+    b = open("/repo/testdata/hello_world.bin", "rb").read()
+    rng = random.Random(seed)
+    lines = []
+    evil = [0, 1, 0xfff, 0x1000, 1 << 28, (1 << 28) + 1, 1 << 30, 1 << 32, 1 << 33, 1 << 40, 1 << 47, 1 << 62, 1 << 63, (1 << 63) + 5,
+            (1 << 64) - 0x1000, (1 << 64) - 0xfff, (1 << 64) - 1, (1 << 64) - 8]
+    import struct
+    phoff = struct.unpack_from("<Q", b, 0x20)[0]
+    phnum = struct.unpack_from("<H", b, 0x38)[0]
+    k = 0
+    for ph in range(min(phnum, 4)):
+        base = phoff + 56 * ph
+        for field_off in (8, 16, 32, 40):      # p_offset, p_vaddr, p_filesz, p_memsz
+            for v in evil:
+                big_ok = field_off == 40 and (1 << 18) < v <= (1 << 28)
+                if big_ok != impl_only:
+                    continue
+                m = bytearray(b)
+                struct.pack_into("<Q", m, base + field_off, v)
+                lines += ["case evil%d" % k, "elf " + bytes(m).hex(), "allregs " + " ".join("0" * 1 for _ in range(16)),
+                          "allxmm " + " ".join("0" for _ in range(16)), "dump", "end"]
+                k += 1
+    if impl_only:
+        return lines
+    for cut in sorted(set([0, 1, 15, 16, 17, 51, 52, 63, 64, 65, 0x77, 0x78, 0x79, len(b) // 2, len(b) - 1] + [rng.randrange(len(b)) for _ in range(20)])):
+        lines += ["case cut%d" % cut, "elf " + (b[:cut].hex() or "-"), "allregs " + " ".join("0" for _ in range(16)),
+                  "allxmm " + " ".join("0" for _ in range(16)), "dump", "end"]
+    return lines
+
+
+def elf_total_check(block, res):
+    for l in res:
+        if l.startswith(("r panic", "r harness-panic")):
+            return "loading crashed: " + l
+    for (st, ln, acc, data, raw) in _areas_bytes(res):
+        if ln > (1 << 28) + 0xfff:
+            return "an area of %x bytes was allocated from the file's headers" % ln
+    return None
+
+
+@prop("C16")
+def c16(tier, seed, **kw):
+    n = 600 if tier == "quick" else 20000
+    lines = elf_gen.gen_elf_cases(seed, n, 0.85) + elf_evil_cases(seed)
+    hist = {}
+    for b in lines:
+        if b.startswith("case "):
+            k = b[5:9].rstrip("0123456789_")
+            hist[k] = hist.get(k, 0) + 1
+    try:
+        # accepted boundary sizes: implementation only (both profiles)
+        big = elf_evil_cases(seed, impl_only=True)
+        bigbad = []
+        for prof in ("release", "relchk"):
+            work = os.path.join(axv.BUILD, "c16-big-" + prof)
+            os.makedirs(work, exist_ok=True)
+            cf, of = os.path.join(work, "c.txt"), os.path.join(work, "o.txt")
+            open(cf, "w").write("\n".join(big) + "\n")
+            rc = subprocess.run([harnesses()[prof], "run", cf, of], stdout=subprocess.DEVNULL, stderr=subprocess.DEVNULL).returncode
+            if rc != 0:
+                raise axv.ImplRunnerDied("implementation runner died on the boundary-size cases (%s)" % prof)
+            for cid, r in axv.parse_out(of).items():
+                msg = elf_total_check([], r)
+                if msg:
+                    bigbad.append((msg + " (%s)" % prof, dict(case=blocks_of(big)[cid], impl=r)))
+        res = hand_check(
+            "C16", lines, hist,
+            rule="structured mutations of well-formed ELF32/64 LE/BE files (every header field incl. p_memsz, p_filesz, p_offset, "
+                 "p_vaddr, p_type, e_phnum, e_phoff, e_shoff, class, byte order, section and symbol tables), truncations at every "
+                 "boundary, the 8 testdata binaries, plus exhaustive single-field substitution of 18 adversarial 64-bit values into the "
+                 "first four program headers of a real binary; checked: Ok or Err (no panic, no abort: an abort kills the runner and is "
+                 "reported), no area above the per-segment limit; non-trivial = reached the segment loop",
+            nontrivial=lambda b: True,
+            project=lambda r: project_generic(r, ("d area",)),
+            impl_checks=elf_total_check)
+        res["violations"] = res.get("violations", []) + bigbad[:3]
+        res.setdefault("extra", {})["boundary_size_cases_impl_only"] = len(big) // 6
+        return res
+    except axv.ImplRunnerDied as e:
+        return dict(rule="", histogram=hist, cases=0, distinct=0, samples=[], broken=[], known=[],
+                    violations=[("loading a malformed file killed the process (abort / runaway allocation): %s" % str(e)[:200],
+                                 dict(note="runner died; bisect the case file build/corr-C16*"))])
